@@ -76,7 +76,7 @@ class C20(Check):
                    'the image surface is written plane unless class curved_image (the reader is then expected to keep it)']
 
     def budget(self, tier):
-        return (60, 8) if tier == 'quick' else (2000, 16)
+        return (150, 8) if tier == 'quick' else (2000, 16)
 
     def strategy(self, tier):
         return prescription()
